@@ -202,8 +202,8 @@ func runWorkload(wl Workload) []Window {
 // shared mutex, so that the race detector sees as few happens-before edges as
 // the code under test itself creates.  Phase 1: every operation except
 // updates through retained handles (no report expected).  Phase 2: updates
-// through retained handles against deletes (known finding: Leaf.Update races
-// with Delete).
+// through retained handles against deletes (raced before repo commit 3480f62; no
+// report expected now).
 func raceWorkload(seed uint64) {
 	r := vh.NewRand(seed)
 	t := &ctree.Tree{}
@@ -257,6 +257,30 @@ func raceWorkload(seed uint64) {
 					t2.Add(p, int64(i))
 				} else {
 					t2.Delete(p)
+				}
+			}
+		}()
+	}
+	wg.Wait()
+	// Phase 3: Children() of a node returned by Get against Delete (same root
+	// cause: Delete mutates the node's map under the root lock only).  Last,
+	// because the runtime may abort with "concurrent map iteration and map write".
+	fmt.Fprintln(os.Stderr, "C10-RACE-PHASE-3")
+	t3 := &ctree.Tree{}
+	for g := 0; g < 3; g++ {
+		wg.Add(1)
+		g := g
+		go func() {
+			defer wg.Done()
+			for i := 0; i < 3000; i++ {
+				switch g {
+				case 0:
+					t3.Add([]string{"a", "b"}, int64(i))
+					t3.Add([]string{"a", "c"}, int64(i))
+				case 1:
+					t3.Delete([]string{"a", "b"})
+				default:
+					t3.Get([]string{"a"}).Children()
 				}
 			}
 		}()
